@@ -43,4 +43,4 @@ pub fn sleep(dur: Duration) {
 
 #[cfg(kani)]
 #[path = "/verif/harness/may/sleep.rs"]
-mod verif_kani;
+pub(crate) mod verif_kani;
